@@ -1064,4 +1064,7 @@ func runC14(r *Run) {
 	c14StatusTable(r, reach)
 	c14Planners(r)
 	c14Tables(r, reach)
+	r.RuleDoc("C14.R4", "status.canary is decided on every path to the status write (no stale canary survives, e.g. after the canary strategy is removed)")
+	r.Floor("C14.R4", 1)
+	c14CanaryAlwaysDecided(r, "C14.R4")
 }
